@@ -448,6 +448,10 @@ class Builder:
         else:
             pcvl.random_seed(s["seed"])
             u = pcvl.Matrix.random_unitary(n)
+        if s.get("layout") == "T":
+            u = u.T
+        elif s.get("layout") == "H":
+            u = u.conj().T
         kw = {}
         if s.get("name") is not None:
             kw["name"] = s["name"]
@@ -609,7 +613,7 @@ def gen_comp(rng, m, depth, names, p_var, pol):
         k = rng.randint(1, min(m, 3))
         use_pol = pol and rng.random() < 0.5
         return {"t": "unitary", "n": 2 * k if use_pol else k, "seed": rng.randint(0, 10 ** 6),
-                "style": rng.choice(["haar", "haar", "perm"]),
+                "style": rng.choice(["haar", "haar", "perm"]), "layout": rng.choice([None, None, "T", "H"]),
                 "name": rng.choice([None, None, "U1", "my unitary", "Unitary", "CPLX"]), "pol": use_pol}
     if r < 0.65 and pol and m >= 2:
         return {"t": "pbs"}
@@ -2032,6 +2036,9 @@ def gen_simple_case(rng, fam=None):
         else:
             s["num"] = [[[rng.choice([0.0, 1.0, rng.uniform(-2, 2)]), rng.choice([0.0, 0.0, rng.uniform(-2, 2)])]
                          for _ in range(c)] for _ in range(r)]
+            # the SAME logical matrix held as a view that is not C-contiguous (transpose, dagger, reversed columns):
+            # what `M.T`, `U.conj().T`, `M[:, ::-1]` hand to the serialiser
+            s["layout"] = rng.choice([None, None, "T", "H", "rev"])
     elif fam == "state":
         s["s"] = gen_state_text(rng, m)
     elif fam == "sv":
@@ -2084,6 +2091,18 @@ def gen_container(rng, depth):
     return {"dict": [[k, gen_container(rng, depth - 1)] for k in keys]}
 
 
+def matrix_with_layout(pcvl, rows, layout):
+    """the logical matrix `rows` as a perceval Matrix; `layout` chooses how it is held in memory"""
+    a = np.array(rows, dtype=complex)
+    if layout == "T":
+        return pcvl.Matrix(a.T.copy()).T
+    if layout == "H":
+        return pcvl.Matrix(a.conj().T.copy()).conj().T
+    if layout == "rev":
+        return pcvl.Matrix(a[:, ::-1].copy())[:, ::-1]
+    return pcvl.Matrix(rows)
+
+
 def build_simple(s):
     pcvl = pc()
     from perceval.utils import (BasicState, SVDistribution, BSDistribution, BSCount, BSSamples, NoiseModel,
@@ -2101,7 +2120,7 @@ def build_simple(s):
     if fam == "matrix":
         if "sym" in s:
             return pcvl.Matrix(s["sym"], use_symbolic=True)
-        return pcvl.Matrix([[complex(a, b) for a, b in row] for row in s["num"]])
+        return matrix_with_layout(pcvl, [[complex(a, b) for a, b in row] for row in s["num"]], s.get("layout"))
     if fam == "state":
         return BasicState(s["s"])
     if fam == "sv":
@@ -2218,6 +2237,8 @@ def judge_simple(chk, spec, tmpdir, stats=False):
     bad = same_obj(x0, y)
     if bad is not None:
         sig = f"{fam}-roundtrip"
+        if fam == "matrix" and "num" in spec and not x.flags["C_CONTIGUOUS"]:
+            sig = "matrix-memory-order"
         if fam == "matrix" and "sym" in spec:
             rep = chk.lean.ask({"op": "mat", "obj": {"sym": [[str(v) for v in row] for row in x.tolist()]},
                                 "asfound": True})
@@ -2262,6 +2283,8 @@ def judge_simple(chk, spec, tmpdir, stats=False):
         if "num" in spec:
             reqs.append({"op": "mat", "obj": desc_matrix(x)})
             checks.append((dump_mat(msg), desc_matrix(y)))
+            if not x.flags["C_CONTIGUOUS"]:
+                chk.branch("matrix-not-c-contiguous")
         else:   # sympy's printing/parsing of an entry is external: entries are compared as printed
             reqs.append({"op": "mat", "obj": {"sym": [[str(v) for v in row] for row in x.tolist()]}})
             checks.append((dump_mat(msg), {"sym": [[str(v) for v in row] for row in y.tolist()]}))
@@ -2658,7 +2681,7 @@ def run(chk: core.Check):
         "Detector(max_detections=0), empty parameter names, constant Expressions and names sympy treats as constants "
         "are boundary inputs outside the generator",
     ]
-    chk.required_branches = ["nested-shared-param", "expr-defined", "expr-symbolic", "expr-two-slots",
+    chk.required_branches = ["matrix-not-c-contiguous", "nested-shared-param", "expr-defined", "expr-symbolic", "expr-two-slots",
                              "unitary-polarised", "unitary-named", "filter-zero", "filter-none", "max-error-zero",
                              "max-error-set", "compress-on", "compress-off", "binary-entry", "file-entry",
                              "herald-named", "herald-auto", "detector-unset-wires", "experiment-non-unitary",
